@@ -18,6 +18,7 @@ import EinoV.Model.C16Slices
 import EinoV.Proofs.C16Slices
 import EinoV.Gen.FactsC16
 import EinoV.Expected.C16
+import EinoV.Proofs.TransC16
 
 namespace EinoV.C16
 open EinoV.Gen
@@ -617,5 +618,85 @@ theorem strip_two_breaks :
       = .ok [ ⟨[], true, [], []⟩, ⟨["a"], false, [], []⟩, ⟨["b"], false, [], []⟩,
               ⟨["sub"], true, [], []⟩, ⟨["sub", "a"], false, [1], []⟩, ⟨["sub", "in"], true, [], []⟩,
               ⟨["sub", "in", "a"], false, [], []⟩, ⟨["sub", "in", "m"], false, [], []⟩ ] := by decide
+
+/-! ### The translated `extractOption` (compose/utils.go → Gen/TransC16.lean; gotrans phase 6)
+
+  `extractOption`, `Option.deepCopy` and `NewNodePath` are re-translated from /repo on every run of this
+  property; the theorems below say that the translated function computes the model's `extract` (the function
+  every routing theorem of this file is about) for the regenerated fact values (`facts_match`), and never
+  returns `.panic` / `.unspecified`.
+
+  Design.  `Option` is a struct used by value (`GoOption`); `reflect.Type` is the opaque nil-able type `GoType`
+  with `==` as type identity and `reflect.TypeOf` the external `cext.typeOf`; an element of a `[]any` is a
+  value of the abstract type `V`, an `Option` appended to a `[]any` is wrapped by the external
+  `cext.anyOfOption`; `opt.deepCopy()` is translated and proved to return an equal Option (`deepCopy_spec`).
+  Relations: `NodesRel` — the Go map `nodes` *in its stored order* is the model's node list (this is where
+  map order shows: the undesignated loop ranges over `nodes`, and the model's theorems hold for every node
+  list); `OptRel` — values, handlers, paths, and the Option's type is `TypeOf` of its first value;
+  `MapRel` — for every key, `optMap[key]` is, item by item, the model's sub-sequence of the log under that key
+  (`ItemRel`: a component option value, or a wrapped Option related by `OptRel`).  Errors by class: the four
+  `fmt.Errorf` format strings are `errFmt` of the model's `Err`. -/
+section TranslatedExtract
+open EinoV.GoSem EinoV.TransC16 EinoV.Gen.TransC16
+variable {V : Type} [Inhabited V]
+
+theorem translated_source_is_current : FactsC16.extractOptionTranslated = true := by decide
+
+/-- `opt.deepCopy()`: a fresh Option with equal contents (never a panic) -/
+theorem translated_deepCopy_refines (ext : Ext V) (cext : C16Ext V) (o : GoOption V) :
+    Option_deepCopy ext cext o = .ret o :=
+  deepCopy_spec ext cext o
+
+/-- **`extractOption` refines `extract`**, for the fact values regenerated from the source -/
+theorem translated_extractOption_refines (ext : Ext V) (cext : C16Ext V) (vOf hOf : Nat → V)
+    (gn : GoMap (chanCall V)) (ns : Nodes) (hn : NodesRel gn ns)
+    (gopts : List (GoOption V)) (opts : List Opt) (hrel : ListRel (OptRel cext vOf hOf) gopts opts) :
+    match extract gen ns opts with
+    | .ok log => ∃ m, extractOption ext cext gn gopts = .ret (m, none) ∧ MapRel cext vOf hOf m log
+    | .error e => extractOption ext cext gn gopts = .ret ([], some (GoErr.mk (errFmt e))) := by
+  rw [facts_match]
+  exact extractOption_refines ext cext vOf hOf gn ns hn gopts opts hrel
+
+/-- the translated function never leaves the translated semantics (no index out of range, no nil map) -/
+theorem translated_extractOption_total (ext : Ext V) (cext : C16Ext V) (vOf hOf : Nat → V)
+    (gn : GoMap (chanCall V)) (ns : Nodes) (hn : NodesRel gn ns)
+    (gopts : List (GoOption V)) (opts : List Opt) (hrel : ListRel (OptRel cext vOf hOf) gopts opts) :
+    ∃ res, extractOption ext cext gn gopts = .ret res :=
+  extractOption_total ext cext vOf hOf gn ns hn gopts opts hrel
+
+/-! non-vacuity: values are numbers, the type of a value is its last digit, a wrapped Option is 1000 + the
+    number of its values + 100 × the number of its paths -/
+
+def exExt : Ext Nat := { zeroValue := 0, emptyStream := 0, mergeValues := fun _ => (0, none) }
+def exCext : C16Ext Nat :=
+  { typeOf := fun v => some (v % 10), anyOfOption := fun g => 1000 + g.options.length + 100 * g.paths.length }
+def exNodes : GoMap (chanCall Nat) :=
+  [("a", { action := { optionType := some 3, isPassthrough := false } }),
+   ("b", { action := { optionType := some 4, isPassthrough := false } }),
+   ("sub", { action := { optionType := none, isPassthrough := false } }),
+   ("p", { action := { optionType := none, isPassthrough := true } })]
+
+example : NodesRel exNodes (.cons (.comp "a" 3) (.cons (.comp "b" 4) (.cons (.graph "sub" .nil) (.cons (.pass "p") .nil)))) := rfl
+
+/-- an undesignated option of type 3 reaches `a` (by type) and, whole, the sub-graph and the passthrough;
+    an option designated to `sub/x` is forwarded to `sub` with the stripped path -/
+example : (match extractOption exExt exCext exNodes
+      [{ options := [13, 23], handler := [], paths := [], maxRunSteps := 0 },
+       { options := [14], handler := [], paths := [{ path := ["sub", "x"] }], maxRunSteps := 0 }] with
+    | .ret r => r
+    | _ => ([], none)) =
+    ([("a", [13, 23]), ("sub", [1002, 1101]), ("p", [1002])], none) := by decide
+
+/-- the four error classes -/
+example : (match extractOption exExt exCext exNodes [{ options := [14], handler := [], paths := [{ path := [] }], maxRunSteps := 0 }] with
+    | .ret r => r.2 | _ => none) = some (GoErr.mk (errFmt .emptyPath)) := by decide
+example : (match extractOption exExt exCext exNodes [{ options := [14], handler := [], paths := [{ path := ["zz"] }], maxRunSteps := 0 }] with
+    | .ret r => r.2 | _ => none) = some (GoErr.mk (errFmt .unknownNode)) := by decide
+example : (match extractOption exExt exCext exNodes [{ options := [14], handler := [], paths := [{ path := ["a"] }], maxRunSteps := 0 }] with
+    | .ret r => r.2 | _ => none) = some (GoErr.mk (errFmt .wrongType)) := by decide
+example : (match extractOption exExt exCext exNodes [{ options := [14], handler := [], paths := [{ path := ["p", "x"] }], maxRunSteps := 0 }] with
+    | .ret r => r.2 | _ => none) = some (GoErr.mk (errFmt .subPathOfComponent)) := by decide
+
+end TranslatedExtract
 
 end EinoV.C16
